@@ -18,10 +18,11 @@ use zipora::hash_map::{
 use zipora::memory::{SecureMemoryPool, SecurePoolConfig};
 
 const HEADER: &str = r#"From ZV.Common Require Import Base Run.
-From ZV.C06 Require Import Model ModelGold.
+From ZV.C06 Require Import Model ModelGold ModelEasy.
 Open Scope N_scope.
 (* kind 0: standard storage [hasher mode; initial capacity; has_final; final capacity] [final slot-order iteration]
    kind 1: stub storage; kind 2: SmallMap;
+   kind 4: EasyHashMap [initial capacity; auto_grow; max_load_factor numerator; denominator]
    kind 3: GoldHashMap [initial capacity; cache; gc; reuse; has_final; final bucket count; final deleted count]
                        [final entry-order iteration; hash table; max_load table] *)
 Definition case_t : Type := N * list N * list (list (N * N)) * list op * list obs.
@@ -37,6 +38,8 @@ Definition ok (c : case_t) : bool :=
           else let st := exec h st0 ops in eqb_kvs (iter st) (tb ts 0) && (alloc st =? pn ps 3))
   | 1 => eqb_obss (stub_run ops) expect
   | 2 => eqb_obss (sm_run (hasher 0) (Small []) ops) expect
+  | 4 => let grow := fun l c => pn ps 2 * c <=? pn ps 3 * l in
+         eqb_obss (easy_run (hasher 0) grow (negb (pn ps 1 =? 0)) (init (pn ps 0)) ops) expect
   | _ => let h := assoc (tb ts 1) 0 in
          let ml := assoc (tb ts 2) 0 in
          let cfg := mkcfg (negb (pn ps 1 =? 0)) (negb (pn ps 2 =? 0)) (negb (pn ps 3 =? 0)) in
@@ -288,6 +291,7 @@ enum ModelDesc {
     Stub,
     Small,
     Gold { cap0: u64, cache: bool, gc: bool, reuse: bool, lf: f32, collide: u64 },
+    Easy { cap: u64, auto: bool, num: u64, den: u64 },
 }
 struct Cell { name: String, status: &'static str, model: Option<ModelDesc>, stub: bool, map: Box<dyn Mut> }
 
@@ -326,14 +330,14 @@ fn make_cell(family: &str, variant: u64, aux: u64) -> Cell {
         }
         "small" => Cell { name: "SmallMap".into(), status: "M+S", model: Some(ModelDesc::Small), stub: false, map: Box::new(Sm(SmallMap::new(), aux)) },
         "easy" => {
-            let m = match variant {
-                0 => EasyHashMap::new(),
-                1 => EasyHashMap::with_default(7),
-                2 => EasyHashMap::initial_capacity(100).build(),
-                3 => EasyHashMap::initial_capacity(16).max_load_factor(0.1).build(),
-                _ => EasyHashMap::initial_capacity(20).auto_grow(false).build(),
+            let (m, desc) = match variant {
+                0 => (EasyHashMap::new(), ModelDesc::Easy { cap: 16, auto: true, num: 3, den: 4 }),
+                1 => (EasyHashMap::with_default(7), ModelDesc::Easy { cap: 16, auto: true, num: 3, den: 4 }),
+                2 => (EasyHashMap::initial_capacity(100).build(), ModelDesc::Easy { cap: 100, auto: true, num: 3, den: 4 }),
+                3 => (EasyHashMap::initial_capacity(16).max_load_factor(0.1).build(), ModelDesc::Easy { cap: 16, auto: true, num: 1, den: 10 }),
+                _ => (EasyHashMap::initial_capacity(20).auto_grow(false).build(), ModelDesc::Easy { cap: 20, auto: false, num: 3, den: 4 }),
             };
-            Cell { name: format!("EasyHashMap/{}", ["new", "with_default", "cap100", "cap16_lf0.1", "cap20_nogrow"][variant.min(4) as usize]), status: "S-only", model: None, stub: false, map: Box::new(Easy(m, aux)) }
+            Cell { name: format!("EasyHashMap/{}", ["new", "with_default", "cap100", "cap16_lf0.1", "cap20_nogrow"][variant.min(4) as usize]), status: "M+S", model: Some(desc), stub: false, map: Box::new(Easy(m, aux)) }
         }
         _ => {
             let m = if variant == 0 { HashStrMap::new() } else { HashStrMap::with_capacity(3) };
@@ -345,7 +349,7 @@ fn make_cell(family: &str, variant: u64, aux: u64) -> Cell {
 // ---------------------------------------------------------------------------------------------
 // one history
 // ---------------------------------------------------------------------------------------------
-struct Ctx { sum: Summary, shards: CoqShards, budget: usize }
+struct Ctx { sum: Summary, shards: CoqShards, budget: usize, strict: bool }
 
 fn coq_on(x: Option<u64>) -> String { match x { Some(v) => format!("ORes (Some {})", v), None => "ORes None".into() } }
 
@@ -369,6 +373,7 @@ fn history(cx: &mut Ctx, family: &str, variant: u64, aux: u64, ops: &[(u64, u64,
 
     let mut shadow: BTreeMap<u64, u64> = BTreeMap::new();
     let mut obs: Vec<String> = vec![];      // observations as Coq terms (model comparison)
+    let mut offered: Vec<bool> = vec![];    // operations the type does not offer are left out of the model comparison
     let mut failure: Option<String> = None;
     let mut stub_like = true;               // every answer so far is what an empty map would say
     for (i, &(c, k, v)) in ops.iter().enumerate() {
@@ -409,11 +414,11 @@ fn history(cx: &mut Ctx, family: &str, variant: u64, aux: u64, ops: &[(u64, u64,
         match step {
             Err(p) => { failure = Some(format!("op {} {:?} panicked: {}", i, (c, k, v), p)); break; }
             Ok(None) => { /* operation not offered by this type: skipped on both sides */
-                obs.push("OUnit".into()); continue; }
+                obs.push("OUnit".into()); offered.push(false); continue; }
             Ok(Some((term, complaint))) => {
                 let empty_answer = matches!(term.as_str(), "ORes None" | "OBool false" | "OLen 0" | "OIter []" | "OUnit");
                 if !empty_answer { stub_like = false; }
-                obs.push(term);
+                obs.push(term); offered.push(true);
                 if let Some(msg) = complaint { failure = Some(format!("op {}: {}", i, msg)); break; }
             }
         }
@@ -436,7 +441,10 @@ fn history(cx: &mut Ctx, family: &str, variant: u64, aux: u64, ops: &[(u64, u64,
     if let Some(desc) = cell.model.clone() {
         if coq && !obs.is_empty() {
             let n = obs.len();
-            let fin = if failure.is_none() { guarded(|| cell.map.raw()).ok().flatten() } else { None };
+            // layout observables (slot/entry order, capacity, deleted count) are compared in the thorough tier only:
+            // a property-preserving change of growth policy or slot order is then reported as model drift
+            // (no-failing-input-found) there, and not at all in the quick tier
+            let fin = if failure.is_none() && cx.strict { guarded(|| cell.map.raw()).ok().flatten() } else { None };
             let kvs = |v: &[(u64, u64)]| format!("[{}]", v.iter().map(|(a, b)| format!("({}, {})", a, b)).collect::<Vec<_>>().join("; "));
             let (kind, params, tables): (u64, Vec<u64>, Vec<String>) = match desc {
                 ModelDesc::Std { mode, cap } => match &fin {
@@ -445,6 +453,7 @@ fn history(cx: &mut Ctx, family: &str, variant: u64, aux: u64, ops: &[(u64, u64,
                 },
                 ModelDesc::Stub => (1, vec![], vec![]),
                 ModelDesc::Small => (2, vec![], vec![]),
+                ModelDesc::Easy { cap, auto, num, den } => (4, vec![cap, auto as u64, num, den], vec![]),
                 ModelDesc::Gold { cap0, cache, gc, reuse, lf, collide } => {
                     let mut ks: Vec<u64> = ops[..n].iter().map(|o| o.1).collect(); ks.sort(); ks.dedup();
                     let hs: Vec<(u64, u64)> = ks.iter().map(|&k| (k, default_hash(&ckey(collide, k)))).collect();
@@ -453,9 +462,10 @@ fn history(cx: &mut Ctx, family: &str, variant: u64, aux: u64, ops: &[(u64, u64,
                     (3, vec![cap0, cache as u64, gc as u64, reuse as u64, has, b, d], vec![kvs(&it), kvs(&hs), kvs(&ml)])
                 }
             };
-            let ops_coq: Vec<String> = ops[..n].iter().map(|(c, k, v)| format!("({}, {}, {})", c, k, v)).collect();
+            let ops_coq: Vec<String> = ops[..n].iter().enumerate().filter(|(i, _)| offered[*i]).map(|(_, (c, k, v))| format!("({}, {}, {})", c, k, v)).collect();
+            let obs_coq: Vec<String> = obs.iter().enumerate().filter(|(i, _)| offered[*i]).map(|(_, o)| o.clone()).collect();
             let term = format!("({}, {}, [{}], [{}], [{}])", kind, coq_n_list(params.iter().map(|&x| x as u128)),
-                               tables.join("; "), ops_coq.join("; "), obs.join("; "));
+                               tables.join("; "), ops_coq.join("; "), obs_coq.join("; "));
             cx.shards.push(term, cj);
         }
     }
@@ -543,6 +553,7 @@ pub fn run(args: &Args) {
         sum: Summary::new("C06", "operation histories (insert/remove/get/get_mut/contains_key/len/iter/clear, 3..100 ops plus a full read-back) over key universes of 3, 8, 40, 130 keys, marker-adjacent keys and one-home-slot keys, on every map type and preset; ZiporaHashMap under ten caller-supplied hashers (mixing, identity, constant 0, constant u64::MAX, mod 4, two keys on the markers, k<<60, MAX-(k mod 3), 16*(k mod 3), mod 2), the other maps with collisions forced through the key's Hash impl; enumerated: every history of <= 5 (quick: 4/5) insert/remove/get steps over 3 colliding keys; each answer compared with a BTreeMap, iteration as a sorted list; non-trivial = history of >= 3 operations"),
         shards: CoqShards::new(HEADER, 150),
         budget: if args.thorough { 9000 } else { 1200 },
+        strict: args.thorough,
     };
     let mut rng = Rng::new(args.seed);
     if let Some(f) = &args.replay {
@@ -607,7 +618,7 @@ pub fn run(args: &Args) {
         for variant in 0..GOLD_VARIANTS { history(&mut cx, "gold", variant, rng.below(4), &ops, room && (variant + i) % 4 == 1 && ops.len() <= 120); }
         for variant in 0..3 { history(&mut cx, "idx", variant, rng.below(4), &ops, false); }
         history(&mut cx, "small", 0, rng.below(4), &ops, room);
-        for variant in 0..5 { history(&mut cx, "easy", variant, rng.below(4), &ops, false); }
+        for variant in 0..5 { history(&mut cx, "easy", variant, rng.below(4), &ops, room && (variant + i) % 5 == 2 && ops.len() <= 120); }
         history(&mut cx, "str", i % 2, 0, &ops, false);
     }
     // large fills on every cell (one Coq evaluation of the smallest)
